@@ -894,9 +894,11 @@ def exact_vectors(ds, dps, kid_rs):
     return p, r
 
 
-def cache_problems(ds, snap, tol):
+def cache_problems(ds, snap, tol, reported=False):
     """C06 oracle on one real tree: cached vectors vs an exact from-scratch recomputation along an
-    independent traversal.  Returns (problems, exact root vector or None)."""
+    independent traversal.  Returns (problems, exact root vector or None).  `reported`: recompute from the
+    assignment the tree reports (`_data[name]`, what `labels` / `node_data` / `to_dict` give out) instead of the
+    data-point set kept on the node payload; the two coincide on every tree the unchanged code can reach (C07)."""
     top, probs = forest_of(snap)
     if top is None or probs:
         return ["graph is not a forest: " + "; ".join(probs[:2])], None
@@ -912,7 +914,11 @@ def cache_problems(ds, snap, tol):
     def go(nd):
         krs = [go(k) for k in nd["kids"]]
         rec = nd["rec"]
-        p, r = exact_vectors(ds, rec["dps"], krs)
+        dps = rec["dps"] if not reported or rec["dlist"] is None else sorted(rec["dlist"])
+        p, r = exact_vectors(ds, dps, krs)
+        if reported and dps != rec["dps"]:
+            cmp(rec["p"], p, f"clone {rec['name']!r} reported to hold {dps} log_p")
+            return r
         cmp(rec["p"], p, f"clone {rec['dps']} log_p")
         cmp(rec["r"], r, f"clone {rec['dps']} log_r")
         return r
@@ -1324,6 +1330,10 @@ def _run_case(ctx, case, want, gtrace):
                               "Tree." + op["o"], "shape", {"got": got, "expected": exp[i]})
                 if cp and not gp:
                     ofail("C06", f"after op {k} {op['o']}: handle {i}: {cp[0]}", "Tree." + op["o"], "stale-vector", cp[:4])
+                elif not gp:
+                    cpr, _ = cache_problems(ds, snap, tol, reported=True)
+                    if cpr:
+                        ofail("C06", f"after op {k} {op['o']}: handle {i}: {cpr[0]}", "Tree." + op["o"], "stale-vs-reported", cpr[:4])
                 if dens is not None and not cp:
                     rb = rebuilt_densities(ds, plain_forest(top), sorted(snap["data"].get(-1, [])), alpha)
                     for nm in ("log_p", "log_p_one"):
@@ -1429,6 +1439,54 @@ def shrink_ops(case, still_fails, max_tries=600):
 
 
 # =========================================================================== cases shared by C06 / C07 / C15
+def directed_prune_graft(rnd):
+    """what the sub-tree sampler does, in its sharpest form: build a tree in a random creation order (so low and high
+    names may both survive outside a sub-tree), prune a sub-tree, rebuild its data as a FRESH smaller tree (names 0..j-1) and graft the rebuild at
+    every place of the pruned tree.  A fresh name that collides with a surviving one needs exactly this shape."""
+    k = rnd.randint(3, 7)
+    ops, roots, kidsof = [], [], {}
+    for i in range(k):
+        kids = [r for r in roots if rnd.random() < 0.45]
+        kidsof[i] = kids
+        ops.append({"o": "create", "h": 0, "kids": [{"dp": r} for r in kids], "dps": [i]})
+        roots = [r for r in roots if r not in kids] + [i]
+
+    def below(i):
+        return [i] + [x for c in kidsof[i] for x in below(c)]
+
+    cands = [i for i in range(k) if len(below(i)) < k]
+    big = [i for i in cands if len(below(i)) >= 2]
+    top = rnd.choice(big if big and rnd.random() < 0.8 else cands)
+    gone = below(top)
+    m = len(gone)
+    if rnd.random() < 0.5:
+        ops.append({"o": "relabel", "h": 0})  # names in the order `relabel_nodes` gives instead of creation order
+    ops.append({"o": "copy", "h": 0})  # h1
+    ops.append({"o": "getSub", "h": 1, "root": {"dp": top}})  # h2
+    ops.append({"o": "rmSub", "h": 1, "hs": 2})
+    ops.append({"o": "fresh"})  # h3
+    j = rnd.randint(1, m)
+    dps = list(gone)
+    rnd.shuffle(dps)
+    groups = [[d] for d in dps[:j]]
+    for d in dps[j:]:
+        rnd.choice(groups).append(d)
+    roots = []
+    for gi, g in enumerate(groups):
+        kids = list(roots) if gi == j - 1 else [r for r in roots if rnd.random() < 0.5]
+        ops.append({"o": "create", "h": 3, "kids": [{"dp": r} for r in kids], "dps": g})
+        roots = [r for r in roots if r not in kids] + [g[0]]
+    h = 3
+    for par in ["root"] + [{"dp": d} for d in range(k) if d not in gone]:
+        ops.append({"o": "copy", "h": 1})
+        h += 1
+        ops.append({"o": "addSub", "h": h, "hs": 3, "par": par})
+        ops.append({"o": "update", "h": h})
+        if rnd.random() < 0.5:
+            ops.append({"o": "relabel", "h": h})
+    return k, ops
+
+
 def gen_case(desc):
     """descriptor {"gen": {...}} -> full case (data, alpha, ops); a case that already has `ops` is returned as is"""
     if "ops" in desc:
@@ -1448,10 +1506,13 @@ def gen_case(desc):
     ds = DataSet(ds_vals, op)
     if g["stream"] == "grammar":
         ops = gen_history(rnd, n, g["max_ops"], outliers=g["outliers"])
+    elif g["stream"] == "prunegraft":
+        ops = g["ops"]
     else:
         ops = gen_weird(rnd, n, g["max_ops"])
     alpha = Fraction(rnd.choice([1, 1, 2, 3, 5]), rnd.choice([1, 2, 4]))
-    return {"kind": "hist", "stream": g["stream"], "data": ds.to_json(), "alpha": fr(alpha), "ops": ops}
+    return {"kind": "hist", "stream": "grammar" if g["stream"] == "prunegraft" else g["stream"], "data": ds.to_json(),
+            "alpha": fr(alpha), "ops": ops}
 
 
 def hist_descs(tier, rnd, n_grammar, n_weird, long_every=0):
@@ -1462,6 +1523,10 @@ def hist_descs(tier, rnd, n_grammar, n_weird, long_every=0):
             "seed": rnd.randrange(1 << 40), "stream": "grammar", "n": rnd.randint(1, 7 if not long else 6),
             "S": rnd.randint(1, 2), "G": rnd.randint(2, 5), "outliers": rnd.random() < 0.7, "shared": i % 4 == 0,
             "max_ops": rnd.randint(150, 400) if long else rnd.randint(5, 60)}})
+    for i in range(max(20, n_grammar // 40) if n_grammar else 0):
+        k, ops = directed_prune_graft(rnd)
+        out.append({"kind": "hist", "gen": {"seed": rnd.randrange(1 << 40), "stream": "prunegraft", "n": k, "S": rnd.randint(1, 2),
+                                            "G": rnd.randint(2, 5), "outliers": False, "shared": False, "ops": ops}})
     for i in range(n_weird):
         out.append({"kind": "hist", "gen": {
             "seed": rnd.randrange(1 << 40), "stream": "weird", "n": rnd.randint(2, 6), "S": rnd.randint(1, 2),
@@ -1538,7 +1603,12 @@ def shrink_failure(failure, want):
 def search_hist(ctx, failed_cases, rnd, deadline, want, fresh=400):
     import time
 
-    descs = list(failed_cases) + hist_descs("quick", rnd, fresh, 0)
+    directed = []
+    for _ in range(600):
+        k, ops = directed_prune_graft(rnd)
+        directed.append({"kind": "hist", "gen": {"seed": rnd.randrange(1 << 40), "stream": "prunegraft", "n": k, "S": rnd.randint(1, 2),
+                                                 "G": rnd.randint(2, 4), "outliers": False, "shared": False, "ops": ops}})
+    descs = list(failed_cases) + directed + hist_descs("quick", rnd, fresh, 0)
     for d in descs:
         if time.time() > deadline:
             break
